@@ -43,6 +43,9 @@ def module_theorems(module, namespace):
     names = re.findall(r"^\s*(?:@\[[^\]]*\]\s*)*theorem\s+([A-Za-z0-9_'.]+)", open(path, encoding="utf-8").read(), re.M)
     return [("%s.%s" % (namespace, n), module) for n in names]
 
+def targets_if_exist(*mods):
+    return [m for m in mods if os.path.exists(os.path.join(VERIF, "lean", m.replace(".", "/") + ".lean"))]
+
 Q = ["asm"]
 def cfgs(tier, quick, thorough):
     return thorough if tier == "thorough" else quick
@@ -51,8 +54,9 @@ PROPS = {}
 
 PROPS["C04"] = {
     "translators": ["consts", "tower"],
-    "lean_targets": ["JediVerif.Properties.C04"],
-    "theorems": lambda: tower_theorems({"spec"}) + [(t, "JediVerif.Properties.C04") for t in C04_THEOREMS],
+    "lean_targets": ["JediVerif.Properties.C04"] + targets_if_exist("JediVerif.Properties.C04b", "JediVerif.Properties.C04c"),
+    "theorems": lambda: tower_theorems({"spec"}) + [(t, "JediVerif.Properties.C04") for t in C04_THEOREMS]
+                        + module_theorems("JediVerif.Properties.C04b", "Jedi.C04") + module_theorems("JediVerif.Properties.C04c", "Jedi.C04"),
     "streams": lambda seed, tier: [
         {"cfg": c, "name": "tower", "lines": no_alias(gen("tower", seed, 8 if tier == "quick" else 40, tier))}
         for c in cfgs(tier, ["asm"], ["asm", "asm+nobmi2", "asm-clang", "portable64", "portable32"])],
@@ -116,9 +120,6 @@ PROPS["C20"] = {
     "rule": "the same op lines are executed by 4 threads concurrently, each in a different order and twice; every thread must produce, line for line, the output of the sequential run (judged against the Spec)",
     "not_modelled": "footprint premises of interleaving_eq_sequential come from object-code tables, not from a semantics of machine code; data races are only sampled (TSan in the thorough tier)",
 }
-
-def targets_if_exist(*mods):
-    return [m for m in mods if os.path.exists(os.path.join(VERIF, "lean", m.replace(".", "/") + ".lean"))]
 
 def prop_modules(pid, extra=()):
     mods = targets_if_exist("JediVerif.Properties.%s" % pid, *extra)
